@@ -146,14 +146,14 @@ def dump_graph(g, conf, with_hashes: bool) -> Dict[str, Any]:
         try:
             d["config"] = _canon(g.configurationForNode(n))
         except Exception as e:  # deterministic outcome too
-            d["config"] = "EXC %s: %s" % (type(e).__name__, e)
+            d["config"] = "EXC %s" % type(e).__name__  # class only: messages are not part of the statement
         try:
             env = _canon(g.environmentForNode(n))
             if isinstance(env, dict):
                 env.pop("FLOW_RUN_ID", None)  # a fresh uuid per instance by design: identity of the run, not of the package
             d["environment"] = env
         except Exception as e:
-            d["environment"] = "EXC %s: %s" % (type(e).__name__, e)
+            d["environment"] = "EXC %s" % type(e).__name__  # class only: messages are not part of the statement
         spec = g.graph.nodes[n].get("componentSpecification")
         if spec is not None:
             try:
@@ -279,8 +279,19 @@ def load_and_dump(case: Dict[str, Any], root: str, r: random.Random) -> Dict[str
             d["stored_instance"] = "EXC %s" % type(e).__name__
         return d
 
+    # (2b) the PRIMITIVE graph (no replication) of the same package + options
+    def e_graph_primitive():
+        pkg = experiment.model.storage.ExperimentPackage.packageFromLocation(m["pkg"], platform=platform)
+        g = experiment.model.graph.WorkflowGraph.graphFromPackage(
+            pkg, platform=platform, primitive=True, variable_files=list(given),
+            createInstanceConfiguration=False, updateInstanceConfiguration=False)
+        d = dump_graph(g, g.configuration, with_hashes=False)
+        d["layering_order_seen"] = vf_order(g.configuration)
+        return d
+
     record("factory", e_factory)
     record("graph", e_graph)
+    record("graph_primitive", e_graph_primitive)
     record("experiment", e_experiment)
     if not os.environ.get("VERIF_KEEP_TMP"):
         shutil.rmtree(m["pkg"], ignore_errors=True)
